@@ -273,8 +273,45 @@ func runSaveRestore(c *Ctx, sp saveRestoreSpec) []Obligation {
 		construct := ord[name].next("store " + pathSuffix(w.Unit.Pkg.TypesInfo, w.LHS))
 		_ = lhsStr
 		if w.Lit != nil && isDeferredLit(w.Unit.Decl, w.Lit) {
+			if w.Kind == "incdec" {
+				// a counter stepped back by the handler is stepped back on every way through it:
+				// a `return` in the handler's recovered-panic branch placed before the step
+				// leaks one level per recovered panic
+				lfc := c.cfgOf(w.Unit, w.Lit)
+				at := lfc.blocksWith(func(n ast.Node) bool { return n == w.Node })
+				if len(at) > 0 && lfc.exitReachableAvoiding(at, nil) {
+					obs = append(obs, mkOb(c, sp.rule, w.Unit, construct, w.Node, Violated, "the deferred handler can finish without making this step back (a branch of the handler returns before it): the counter keeps the level of every evaluation that ends that way, and the budget of every later evaluation shrinks by one each time", true))
+					continue
+				}
+			}
 			obs = append(obs, mkOb(c, sp.rule, w.Unit, construct, w.Node, Proved, "store is itself a deferred restore", false))
 			continue
+		}
+		if w.Lit == nil && w.Kind == "incdec" && !w.Unit.Obj.Exported() {
+			// the deferred closure turned into a method: a step back made by a function that
+			// is only ever run as a deferred handler (`defer env.leaveEval(&result)`)
+			if sites, refs := c.CallsTo(nil, w.Unit.Obj); len(sites) > 0 && len(refs) == 0 {
+				all := true
+				for _, s := range sites {
+					if len(s.Stack) < 2 {
+						all = false
+						continue
+					}
+					if ds, isDefer := s.Stack[len(s.Stack)-2].(*ast.DeferStmt); !isDefer || ds.Call != s.Call {
+						all = false
+					}
+				}
+				if id, isInc := w.Node.(*ast.IncDecStmt); all && isInc && id.Tok == token.DEC {
+					hfc := c.cfgOf(w.Unit, nil)
+					at := hfc.blocksWith(func(n ast.Node) bool { return n == w.Node })
+					if len(at) > 0 && hfc.exitReachableAvoiding(at, nil) {
+						obs = append(obs, mkOb(c, sp.rule, w.Unit, construct, w.Node, Violated, "the deferred handler can finish without making this step back (a branch of the handler returns before it): the counter keeps the level of every evaluation that ends that way", true))
+						continue
+					}
+					obs = append(obs, mkOb(c, sp.rule, w.Unit, construct, w.Node, Proved, "store is itself a deferred restore: the function is only ever run by `defer`", false))
+					continue
+				}
+			}
 		}
 		if why, ok := sp.exempt[name]; ok {
 			obs = append(obs, mkOb(c, sp.rule, w.Unit, construct, w.Node, Proved, "not a temporary switch: "+why, false))
@@ -282,6 +319,10 @@ func runSaveRestore(c *Ctx, sp saveRestoreSpec) []Obligation {
 		}
 		if via, ok := c.privateHelperOf(w.Unit.Obj, func(n string) bool { _, e := sp.exempt[n]; return e }, 0); ok {
 			obs = append(obs, mkOb(c, sp.rule, w.Unit, construct, w.Node, Proved, "not a temporary switch: private helper of "+via, false))
+			continue
+		}
+		if ok, why := scopedSwitchHelper(c, w, fld); ok {
+			obs = append(obs, mkOb(c, sp.rule, w.Unit, construct, w.Node, Proved, why, true))
 			continue
 		}
 		if w.Lit != nil {
@@ -299,6 +340,11 @@ func runSaveRestore(c *Ctx, sp saveRestoreSpec) []Obligation {
 		isRelease := func(d *ast.DeferStmt) bool {
 			lit := deferredLit(d)
 			if lit == nil {
+				// `defer env.leaveEval(…)`: a declared method of the same receiver whose body
+				// makes the restoring store (the deferred closure turned into a method)
+				if w.Kind == "incdec" && deferredMethodAssigns(c, info, d, p, fld) {
+					return true
+				}
 				return false
 			}
 			rhs, ok := litAssignsPath(info, lit, p)
@@ -335,6 +381,344 @@ func runSaveRestore(c *Ctx, sp saveRestoreSpec) []Obligation {
 		}
 	}
 	return obs
+}
+
+// deferredMethodAssigns: d defers a call of a declared function or method of this module
+// whose body (outside literals) steps the same field back (`x.F--`) through a path with the
+// same element sequence, on every path to its exits.
+func deferredMethodAssigns(c *Ctx, info *types.Info, d *ast.DeferStmt, p AccessPath, fld *types.Var) bool {
+	h := originOf(Callee(info, d.Call))
+	if h == nil {
+		return false
+	}
+	hd := c.declOf[h]
+	if hd == nil || hd.Body == nil {
+		return false
+	}
+	hu := FuncUnit{h, hd, c.pkgOf[hd]}
+	hinfo := hu.Pkg.TypesInfo
+	hfc := c.cfgOf(hu, nil)
+	stores := hfc.blocksWith(func(n ast.Node) bool {
+		switch x := n.(type) {
+		case *ast.IncDecStmt:
+			return x.Tok == token.DEC && FieldOfSelector(hinfo, x.X) == fld
+		case *ast.AssignStmt:
+			for _, l := range x.Lhs {
+				if FieldOfSelector(hinfo, l) == fld && x.Tok == token.SUB_ASSIGN {
+					return true
+				}
+			}
+		}
+		return false
+	})
+	if len(stores) == 0 {
+		return false
+	}
+	return !hfc.exitReachableAvoiding(stores, nil)
+}
+
+// scopedSwitchHelper: the store sits in a helper that packages "switch now, restore on exit":
+//
+//	A. func (e) bridge(v) (restore func()) { saved := e.F; e.F = v; return func() { e.F = saved } }
+//	   used only as   defer e.bridge(v)()
+//	B. func (r) enter(x) T { prev := r.F; …; r.F = y; return prev }   and   func (r) set(v T) { r.F = v }
+//	   used only as   defer r.set(r.enter(x))
+//
+// Go evaluates the operands of a defer statement at once and the deferred call at exit, so
+// both forms are the save / store / deferred-restore sequence written in one line.
+func scopedSwitchHelper(c *Ctx, w FieldWrite, fld *types.Var) (bool, string) {
+	u := w.Unit
+	if u.Decl == nil || u.Decl.Body == nil || u.Obj.Exported() {
+		return false, ""
+	}
+	info := u.Pkg.TypesInfo
+	sites, refs := c.CallsTo(nil, u.Obj)
+	if len(sites) == 0 || len(refs) > 0 {
+		return false, ""
+	}
+	parentOf := func(s CallSite, k int) ast.Node {
+		i := len(s.Stack) - 1 - k
+		if i < 0 {
+			return nil
+		}
+		return s.Stack[i]
+	}
+	// the literal the helper returns (form A)
+	var retLit *ast.FuncLit
+	ast.Inspect(u.Decl.Body, func(n ast.Node) bool {
+		if rs, ok := n.(*ast.ReturnStmt); ok && len(rs.Results) == 1 {
+			if fl, ok := ast.Unparen(rs.Results[0]).(*ast.FuncLit); ok {
+				retLit = fl
+			}
+		}
+		return true
+	})
+	if retLit != nil {
+		// the literal restores the field from a local saved from the same field
+		restores := false
+		ast.Inspect(retLit.Body, func(n ast.Node) bool {
+			if as, ok := n.(*ast.AssignStmt); ok && len(as.Lhs) == len(as.Rhs) {
+				for i, l := range as.Lhs {
+					if FieldOfSelector(info, l) == fld {
+						if d := soleDef(info, u.Decl.Body, as.Rhs[i]); d != nil && FieldOfSelector(info, d) == fld {
+							restores = true
+						}
+					}
+				}
+			}
+			return true
+		})
+		all := restores
+		for _, s := range sites {
+			// Stack ends with the call; its parent must be a call (the closure invoked) whose parent is a defer
+			outer, ok := parentOf(s, 1).(*ast.CallExpr)
+			if !ok || ast.Unparen(outer.Fun) != ast.Expr(s.Call) {
+				all = false
+				continue
+			}
+			if _, ok := parentOf(s, 2).(*ast.DeferStmt); !ok {
+				all = false
+			}
+		}
+		if all && (w.Lit == nil || w.Lit == retLit) {
+			return true, "scoped-switch helper: saves the field, stores, and returns the closure that restores it; every use is `defer " + u.Obj.Name() + "(…)()`, which switches at once and restores at exit"
+		}
+		return false, ""
+	}
+	if w.Lit != nil {
+		return false, ""
+	}
+	// form B, the setter half: every use is `defer set(<call of an enter helper of the same field>)`
+	isEnter := func(h *types.Func) bool { return c.isEnterHelper(h, fld) }
+	if c.isSetterWrapper(u) {
+		all := true
+		for _, s := range sites {
+			if _, ok := parentOf(s, 1).(*ast.DeferStmt); !ok {
+				all = false
+				continue
+			}
+			// one operand is the value to put back, obtained now: an enter helper's result,
+			// or the field read directly (`defer set(env, env.Runtime.Package)`)
+			saved := false
+			for _, a := range s.Call.Args {
+				a = ast.Unparen(a)
+				if ac, ok := a.(*ast.CallExpr); ok && isEnter(originOf(Callee(s.Unit.Pkg.TypesInfo, ac))) {
+					saved = true
+				} else if FieldOfSelector(s.Unit.Pkg.TypesInfo, a) == fld {
+					saved = true
+				}
+			}
+			if !saved {
+				all = false
+			}
+		}
+		if all {
+			return true, "restoring half of a scoped switch: every use is `defer " + u.Obj.Name() + "(<enter helper>(…))` — the enter helper switches at once and hands back the previous value, this setter puts it back at exit"
+		}
+		return false, ""
+	}
+	if isEnter(u.Obj) {
+		all := true
+		for _, s := range sites {
+			outer, ok := parentOf(s, 1).(*ast.CallExpr)
+			if !ok {
+				all = false
+				continue
+			}
+			sf := originOf(Callee(s.Unit.Pkg.TypesInfo, outer))
+			sd := c.declOf[sf]
+			if sf == nil || sd == nil || !c.isSetterWrapper(FuncUnit{sf, sd, c.pkgOf[sd]}) {
+				all = false
+				continue
+			}
+			if _, ok := parentOf(s, 2).(*ast.DeferStmt); !ok {
+				all = false
+			}
+		}
+		if all {
+			return true, "switching half of a scoped switch: returns the value it replaced, and every use is the operand of a deferred setter of the same field"
+		}
+	}
+	return false, ""
+}
+
+
+// isEnterHelper: h hands back, on every return, a local read from the field before h's first
+// store or call — the value current before whatever switch h makes.
+func (c *Ctx) isEnterHelper(h *types.Func, fld *types.Var) bool {
+	hd := c.declOf[h]
+	if h == nil || hd == nil || hd.Body == nil {
+		return false
+	}
+	hinfo := c.pkgOf[hd].TypesInfo
+	// every return hands back a local read from the field, and that read precedes any
+	// store or call the helper makes (so it is the value before the switch); the switch
+	// itself may be a direct store or made by a callee
+	retsSaved, nret := true, 0
+	firstEffect := token.Pos(0)
+	ast.Inspect(hd.Body, func(n ast.Node) bool {
+		switch x := n.(type) {
+		case *ast.AssignStmt:
+			for _, l := range x.Lhs {
+				if FieldOfSelector(hinfo, l) == fld && (firstEffect == 0 || x.Pos() < firstEffect) {
+					firstEffect = x.Pos()
+				}
+			}
+		case *ast.CallExpr:
+			if firstEffect == 0 || x.Pos() < firstEffect {
+				firstEffect = x.Pos()
+			}
+		}
+		return true
+	})
+	ast.Inspect(hd.Body, func(n ast.Node) bool {
+		if x, ok := n.(*ast.ReturnStmt); ok {
+			nret++
+			if len(x.Results) != 1 {
+				retsSaved = false
+				return true
+			}
+			d := soleDef(hinfo, hd.Body, x.Results[0])
+			if d == nil || FieldOfSelector(hinfo, d) != fld || (firstEffect != 0 && d.Pos() > firstEffect) {
+				retsSaved = false
+			}
+		}
+		return true
+	})
+	return retsSaved && nret > 0
+}
+
+
+// closerHelperStore: h is a form-A scoped-switch helper for fld —
+//
+//	func (e) h(v) func() { saved := e.F; e.F = v; return func() { e.F = saved } }
+//
+// — and reports the index of the parameter it stores (‑1 when the stored value is not a
+// parameter) and whether the store is made through h's receiver.
+func (c *Ctx) closerHelperStore(h *types.Func, fld *types.Var) (param int, onRecv bool, ok bool) {
+	hd := c.declOf[h]
+	if h == nil || hd == nil || hd.Body == nil {
+		return -1, false, false
+	}
+	hu := FuncUnit{h, hd, c.pkgOf[hd]}
+	hinfo := hu.Pkg.TypesInfo
+	var retLit *ast.FuncLit
+	nret := 0
+	for _, st := range hd.Body.List {
+		if rs, isRet := st.(*ast.ReturnStmt); isRet {
+			nret++
+			if len(rs.Results) == 1 {
+				retLit, _ = ast.Unparen(rs.Results[0]).(*ast.FuncLit)
+			}
+		}
+	}
+	// one return, at the top level of the body (so every top-level statement before it runs)
+	total := 0
+	ast.Inspect(hd.Body, func(n ast.Node) bool {
+		if _, isLit := n.(*ast.FuncLit); isLit {
+			return false
+		}
+		if _, isRet := n.(*ast.ReturnStmt); isRet {
+			total++
+		}
+		return true
+	})
+	if retLit == nil || nret != 1 || total != 1 {
+		return -1, false, false
+	}
+	restores := false
+	ast.Inspect(retLit.Body, func(n ast.Node) bool {
+		if as, isAs := n.(*ast.AssignStmt); isAs && len(as.Lhs) == len(as.Rhs) {
+			for i, l := range as.Lhs {
+				if FieldOfSelector(hinfo, l) == fld {
+					if d := soleDef(hinfo, hd.Body, as.Rhs[i]); d != nil && FieldOfSelector(hinfo, d) == fld {
+						restores = true
+					}
+				}
+			}
+		}
+		return true
+	})
+	if !restores {
+		return -1, false, false
+	}
+	param = -1
+	var recv types.Object
+	if hd.Recv != nil && len(hd.Recv.List) == 1 && len(hd.Recv.List[0].Names) == 1 {
+		recv = hinfo.Defs[hd.Recv.List[0].Names[0]]
+	}
+	params := paramObjs(hu)
+	stored := false
+	for _, st := range hd.Body.List {
+		as, isAs := st.(*ast.AssignStmt)
+		if !isAs || len(as.Lhs) != len(as.Rhs) {
+			continue
+		}
+		for i, l := range as.Lhs {
+			se, isSel := ast.Unparen(l).(*ast.SelectorExpr)
+			if !isSel || FieldOfSelector(hinfo, se) != fld {
+				continue
+			}
+			stored = true
+			if o := identObj(hinfo, se.X); o != nil && o == recv {
+				onRecv = true
+			}
+			if o := identObj(hinfo, as.Rhs[i]); o != nil {
+				for k, po := range params {
+					if po == o {
+						param = k
+					}
+				}
+			}
+		}
+	}
+	return param, onRecv, stored
+}
+
+// deferRestoresField: ds registers, unconditionally where it stands, a restore of fld to the
+// value it holds now: `defer func(){ x.F = saved }()` is judged by the callers themselves;
+// this recognises the packaged forms `defer x.h(v)()`, `defer set(enter(…))` and
+// `defer set(x, x.F)`.
+func (c *Ctx) deferRestoresField(info *types.Info, ds *ast.DeferStmt, fld *types.Var) bool {
+	if inner, ok := ast.Unparen(ds.Call.Fun).(*ast.CallExpr); ok {
+		if _, _, ok := c.closerHelperStore(originOf(Callee(info, inner)), fld); ok {
+			return true
+		}
+		return false
+	}
+	sf := originOf(Callee(info, ds.Call))
+	sd := c.declOf[sf]
+	if sf == nil || sd == nil {
+		return false
+	}
+	su := FuncUnit{sf, sd, c.pkgOf[sd]}
+	if !c.isSetterWrapper(su) {
+		return false
+	}
+	storesFld := false
+	ast.Inspect(sd.Body, func(n ast.Node) bool {
+		if as, ok := n.(*ast.AssignStmt); ok {
+			for _, l := range as.Lhs {
+				if FieldOfSelector(su.Pkg.TypesInfo, l) == fld {
+					storesFld = true
+				}
+			}
+		}
+		return true
+	})
+	if !storesFld {
+		return false
+	}
+	for _, a := range ds.Call.Args {
+		a = ast.Unparen(a)
+		if ac, ok := a.(*ast.CallExpr); ok && c.isEnterHelper(originOf(Callee(info, ac)), fld) {
+			return true
+		}
+		if FieldOfSelector(info, a) == fld {
+			return true
+		}
+	}
+	return false
 }
 
 // pathSuffix renders an lvalue by its resolved access path without the root
